@@ -88,7 +88,7 @@ def checkW (old : Option MW) (w : MW) (cur : Int) (allowed : List Int) (multi : 
   else if (if w.alive then outNew.take outOld.length ≠ outOld else outOld.take w.log.length ≠ w.log ∨ w.pend.isSome) then
     some "VIOL stream history changed retroactively"
   else if (outNew.drop outOld.length).any (fun v => ¬ allowed.contains v) then
-    some "VIOL stream was sent a status its service did not have"
+    some "VIOL stream picked up a status its service did not have at that time"
   else if old.isNone ∧ outNew.head? ≠ some cur then some "VIOL first message is not the service's current status"
   else if w.alive ∧ outNew.getLast? ≠ some cur ∧ w.pend.isNone then
     some "VIOL idle stream has not been sent the latest status"
